@@ -148,8 +148,9 @@ def entry_points(chk, ex, clsname, which, found=None):
         arr = st0.objs[sref.oid]["fields"].get("n_added_records")
         ok = bool(outs)
         for o, e in outs:
-            org = getattr(o.value, "origin", None) if o.kind == "return" else None
-            good = org is not None and org[0] is arr and ex.concrete(org[1] if not isinstance(org[1], tuple) else org[1][0]) == idx
+            # by value: the returned number is provably the element (a cast to its own type is fine)
+            want = Sym(z3.Int("elem_%s[%d]" % (arr.data, idx)), "uint64") if isinstance(arr, Arr) else None
+            good = o.kind == "return" and want is not None and isinstance(o.value, (Sym, Const)) and same_value(chk, o.state.pc, o.value, want)
             ok = ok and good and not [x for x in e if x[0] in _glue.MUTATING]
         row(chk, "%s.%s():returns-n_added_records[%d]-and-changes-nothing" % (clsname, meth, idx), ok, None, found)
 
